@@ -302,7 +302,7 @@ def compile_exprs(in_types, exprs, cnt, ctx):
 
 def constify(e, in_types, rnd):
     """replace input b (or a for unary forms) by a typed constant: constant-operand paths of the back end"""
-    target = 'b' if 'b' in in_types else 'a'
+    target = next(iter(in_types)) if len(in_types) == 1 else ('b' if 'b' in in_types else 'a')
     t = in_types[target]
 
     def sub(n):
